@@ -1052,10 +1052,8 @@ Proof.
     destruct st as [|s0 st]; cbn; [tauto|]. destruct s0.
     + pose proof (tf_in_free n cs st p) as Hfree. specialize (IH n st Hnd').
       destruct (take_free n cs st) as [r st'']; cbn in *.
-      intros [->|Hr] [H|H]; try (inversion H; subst; auto; fail).
-      * apply in_combine_l in H. tauto.
-      * inversion H; subst. apply Hfree, in_combine_l in Hr. tauto.
-      * auto.
+      intros Hr [H|H]; [inversion H; subst; auto|].
+      destruct Hr as [->|Hr]; [apply in_combine_l in H; tauto | auto].
     + pose proof (tf_in_free (S n) cs st p) as Hfree. specialize (IH (S n) st Hnd').
       destruct (take_free (S n) cs st) as [r st'']; cbn in *.
       intros Hr [H|H]; auto. inversion H; subst. apply Hfree, in_combine_l in Hr. tauto.
@@ -1092,14 +1090,559 @@ Proof.
   { intros p Hp. specialize (Hfree _ Hp). split; intros Hc.
     - specialize (H3 _ _ Hfree Hc). discriminate.
     - specialize (H4 _ _ Hfree Hc). discriminate. }
-  repeat split; auto.
-  - constructor; cbn; auto; try lia.
-    + intros p c Hin Hr. rewrite in_app_iff in Hr. destruct Hr as [Hr|Hr].
-      * apply in_rev in Hr. eapply Htaken; eauto.
-      * destruct (Hstat _ _ Hin) as [Hold|[-> _]]; auto. eapply H3; eauto.
-    + intros p c Hin Hs. destruct (Hstat _ _ Hin) as [Hold|[-> Hr]]; [eapply H4; eauto|].
-      exfalso. apply (Hfresh _ Hr); auto.
-    + apply NoDup_app_intro; auto; [apply NoDup_rev; auto|]. intros p Hp. apply in_rev in Hp. apply Hfresh; auto.
-  - apply Hfresh; auto.
-  - apply Hfresh; auto.
+  split; [|split; [auto|split; [reflexivity|exact Hfresh]]].
+  constructor; cbn; auto; try lia.
+  - intros p c Hin Hr. rewrite in_app_iff in Hr. destruct Hr as [Hr|Hr].
+    + apply in_rev in Hr. eapply Htaken; eauto.
+    + destruct (Hstat _ _ Hin) as [Hold|[-> _]]; auto. eapply H3; eauto.
+  - intros p c Hin Hs. destruct (Hstat _ _ Hin) as [Hold|[-> Hr]]; [eapply H4; eauto|].
+    exfalso. apply (Hfresh _ Hr); auto.
+  - apply NoDup_app_intro; auto; [apply NoDup_rev; auto|]. intros p Hp. apply in_rev in Hp. apply Hfresh; auto.
 Qed.
+
+(* ------------------------------------------------------------------------------------------------ *)
+(** * at most once: the invariant (needs H-CAND, i.e. hc = true) *)
+
+Definition covered (P : nat -> Prop) (wsl : list worker) (m : manager) (h : list nat) : Prop :=
+  forall j wj, P j -> nth_error wsl j = Some wj -> wactive wj = true ->
+               forall p, In p (wx wj) -> In p (rjobs m) /\ In p h.
+
+Record Q (P : nat -> Prop) (wsl : list worker) (m : manager) (st ld : list (nat * nat)) (h : list nat) : Prop := {
+  q_mi : MI m st ld;
+  q_hand : forall p, In p h -> In p (rjobs m) \/ SL st ld p;
+  q_ndh : NoDup h;
+  q_cov : covered P wsl m h
+}.
+
+Lemma cand_okb_spec ld c : cand_okb ld c = true -> NoDup c /\ forall p, In p c -> ~ In p (pts ld).
+Proof.
+  unfold cand_okb. rewrite andb_true_iff, forallb_forall. intros [H1 H2]. split; [apply nodupb_NoDup; auto|].
+  intros p Hp. specialize (H2 _ Hp). apply negb_true_iff, memb_false in H2. auto.
+Qed.
+
+Lemma SL_load st ld p : SL [] (ld ++ st) p <-> SL st ld p.
+Proof. unfold SL. rewrite pts_app, in_app_iff. cbn. tauto. Qed.
+
+Lemma Q_load P wsl m st ld h : Q P wsl m st ld h -> Q P wsl m [] (ld ++ st) h.
+Proof.
+  intros [H1 H2 H3 H4]. constructor; auto.
+  - eapply MI_SL_ext; eauto. intros p. apply SL_load.
+  - intros p Hp. destruct (H2 _ Hp); auto. right. apply SL_load; auto.
+Qed.
+
+Lemma Q_refresh P wsl m st ld h c m' st' ld' :
+  do_refresh true m st ld c = Some (m', st', ld') -> Q P wsl m st ld h -> Q P wsl m' st' ld' h.
+Proof.
+  unfold do_refresh, do_load. cbn. destruct (cand_okb (ld ++ st) c) eqn:E; intros H; inversion H; subst; clear H.
+  intros HQ. apply Q_load in HQ. destruct HQ as [H1 H2 H3 H4]. apply cand_okb_spec in E. destruct E as [Hnd Hdis].
+  constructor; auto.
+  eapply MI_assign; eauto. intros p Hp [Hs|Hs]; [cbn in Hs; auto|]. apply (Hdis p); auto.
+Qed.
+
+Lemma Q_next P wsl m st ld h b rem r m' :
+  Q P wsl m st ld h -> m_next b m rem = (r, m') ->
+  Q P wsl m' st ld (h ++ r) /\ NoDup r /\
+  (forall p, In p r -> In p (rjobs m') /\ In p (h ++ r)) /\
+  (forall j wj, P j -> nth_error wsl j = Some wj -> wactive wj = true -> forall p, In p r -> ~ In p (wx wj)).
+Proof.
+  intros [H1 H2 H3 H4] E. destruct (MI_next _ _ _ _ _ _ _ H1 E) as (M' & Hnd & Hrj & Hfresh).
+  split; [|split; [auto|split]].
+  - constructor; auto.
+    + intros p Hp. rewrite in_app_iff in Hp. rewrite Hrj, in_app_iff. destruct Hp as [Hp|Hp].
+      * destruct (H2 _ Hp); auto.
+      * left. left. apply in_rev. rewrite rev_involutive. auto.
+    + apply NoDup_app_intro; auto. intros p Hp Hr. destruct (Hfresh _ Hr) as [F1 F2]. destruct (H2 _ Hp); auto.
+    + intros j wj Pj Hj Ha p Hp. destruct (H4 _ _ Pj Hj Ha _ Hp) as [A B]. rewrite Hrj, !in_app_iff. auto.
+  - intros p Hp. rewrite Hrj, !in_app_iff. split; auto. left. apply in_rev. rewrite rev_involutive. auto.
+  - intros j wj Pj Hj Ha p Hp Hin. destruct (H4 _ _ Pj Hj Ha _ Hin) as [A B]. destruct (Hfresh _ Hp) as [F1 F2]. auto.
+Qed.
+
+Record InvO (s : state) : Prop := {
+  o_q : Q (fun _ => True) (ws s) (mgr s) (store s) (loaded s) (handed s);
+  o_nd : forall id w, nth_error (ws s) id = Some w -> wactive w = true -> NoDup (wx w);
+  o_a2 : forall i j wi wj, i <> j -> nth_error (ws s) i = Some wi -> nth_error (ws s) j = Some wj ->
+         wactive wi = true -> wactive wj = true -> forall p, In p (wx wi) -> ~ In p (wx wj)
+}.
+
+Lemma init_InvO cfg L0 n0 : InvO (init cfg L0 n0).
+Proof.
+  assert (Hrep : forall j wj, nth_error (repeat (mkW FDone WIdle [] []) (nj cfg)) j = Some wj -> wx wj = []).
+  { intros j wj Hj. apply nth_error_repeat in Hj. subst. reflexivity. }
+  constructor; cbn.
+  - constructor; cbn.
+    + constructor; cbn; try constructor; try tauto.
+    + tauto.
+    + constructor.
+    + intros j wj _ Hj _ p Hp. rewrite (Hrep _ _ Hj) in Hp. destruct Hp.
+  - intros id w H _. rewrite (Hrep _ _ H). constructor.
+  - intros i j wi wj _ Hi _ _ _ p Hp. rewrite (Hrep _ _ Hi) in Hp. destruct Hp.
+Qed.
+
+(* worker [k] gets the record [w']; everything about the other workers is in Q *)
+Lemma InvO_assemble s k w' m' st' ld' h' :
+  InvO s -> k < length (ws s) ->
+  Q (fun j => j <> k) (ws s) m' st' ld' h' ->
+  (wactive w' = true ->
+     NoDup (wx w') /\ (forall p, In p (wx w') -> In p (rjobs m') /\ In p h') /\
+     (forall j wj, j <> k -> nth_error (ws s) j = Some wj -> wactive wj = true -> forall p, In p (wx w') -> ~ In p (wx wj))) ->
+  forall c la mp cl, InvO (mkS (upd (ws s) k w') c m' la st' ld' mp h' cl).
+Proof.
+  intros [_ Hnd Ha2] Hk [Q1 Q2 Q3 Q4] Hnew c la mp cl. constructor; cbn.
+  - constructor; auto. intros j wj _ Hj Ha p Hp.
+    destruct (nth_error_upd _ _ _ _ _ Hj) as [(<- & -> & _)|(Hne & Hj')].
+    + apply Hnew; auto.
+    + eapply Q4; eauto.
+  - intros id w Hid Ha. destruct (nth_error_upd _ _ _ _ _ Hid) as [(<- & -> & _)|(Hne & Hj')].
+    + apply Hnew; auto.
+    + eapply Hnd; eauto.
+  - intros i j wi wj Hij Hi Hj Hai Haj p Hp Hq.
+    destruct (nth_error_upd _ _ _ _ _ Hi) as [(<- & -> & _)|(Hni & Hi')];
+      destruct (nth_error_upd _ _ _ _ _ Hj) as [(<- & -> & _)|(Hnj & Hj')]; try congruence.
+    + destruct (Hnew Hai) as (_ & _ & Hd). eapply Hd; eauto.
+    + destruct (Hnew Haj) as (_ & _ & Hd). eapply (Hd i wi); eauto.
+    + eapply Ha2 with (i := i) (j := j); eauto.
+Qed.
+
+(* a step that keeps [wactive] and [wx] of the only worker it changes, and nothing else of this invariant *)
+Lemma InvO_wframe s id w w' :
+  InvO s -> nth_error (ws s) id = Some w -> wactive w' = wactive w -> wx w' = wx w ->
+  forall c la mp cl, InvO (mkS (upd (ws s) id w') c (mgr s) la (store s) (loaded s) mp (handed s) cl).
+Proof.
+  intros I Ew Ea Ex c la mp cl. pose proof I as [[Q1 Q2 Q3 Q4] Hnd Ha2].
+  apply InvO_assemble; auto.
+  - eapply nth_error_lt; eauto.
+  - constructor; auto. intros j wj _ Hj Ha p Hp. eapply Q4; eauto.
+  - rewrite Ea, Ex. intros Ha. split; [eapply Hnd; eauto|]. split.
+    + intros p Hp. eapply Q4; eauto.
+    + intros j wj Hne Hj Haj p Hp. eapply Ha2 with (i := id) (j := j); eauto.
+Qed.
+
+Lemma InvO_main s m' : InvO s -> forall c la cl, InvO (mkS (ws s) c (mgr s) la (store s) (loaded s) m' (handed s) cl).
+Proof. intros [H1 H2 H3] c la cl. constructor; cbn; auto. Qed.
+
+Lemma Q_weaken (P P' : nat -> Prop) wsl m st ld h : (forall j, P' j -> P j) -> Q P wsl m st ld h -> Q P' wsl m st ld h.
+Proof. intros Himp [H1 H2 H3 H4]. constructor; auto. intros j wj Pj. apply H4; auto. Qed.
+
+Lemma Q_complete s k w :
+  InvO s -> nth_error (ws s) k = Some w -> wactive w = true -> length (wy w) = length (wx w) ->
+  Q (fun j => j <> k) (ws s) (m_complete (mgr s) (wx w)) (store s ++ combine (wx w) (wy w)) (loaded s) (handed s).
+Proof.
+  intros [[Q1 Q2 Q3 Q4] Hnd Ha2] Ek Ha Hlen.
+  assert (Hsl : forall p, SL (store s ++ combine (wx w) (wy w)) (loaded s) p <-> SL (store s) (loaded s) p \/ In p (wx w)).
+  { intros p. unfold SL. rewrite pts_app, in_app_iff, pts_combine by auto. tauto. }
+  constructor; auto.
+  - eapply MI_complete; eauto. intros p Hp. apply Hsl; auto.
+  - intros p Hp. cbn. destruct (in_dec Nat.eq_dec p (wx w)) as [Hin|Hnin].
+    + right. apply Hsl. auto.
+    + destruct (Q2 _ Hp) as [Hr|Hs].
+      * left. apply remove_all_In_notin; auto.
+      * right. apply Hsl. auto.
+  - intros j wj Hne Hj Haj p Hp. destruct (Q4 _ _ I Hj Haj _ Hp) as [A B]. split; auto. cbn.
+    apply remove_all_In_notin; auto. eapply Ha2 with (i := j) (j := k); eauto.
+Qed.
+
+Lemma InvO_collect cfg s ldc c1 c2 s' :
+  Inv1 cfg s -> InvO s -> step_mcollect true cfg s ldc c1 c2 = Some s' -> InvO s'.
+Proof.
+  intros I1 IO. unfold step_mcollect. destruct (mpc s) eqn:Em; try discriminate.
+  destruct (nth_error (ws s) k) as [w|] eqn:Ek; try discriminate.
+  destruct (wflag w) eqn:Ef; try discriminate.
+  pose proof (nth_error_lt _ _ _ Ek) as Hk.
+  assert (Hact : wactive w = true) by (unfold wactive; rewrite Ef; reflexivity).
+  assert (Hlen : length (wy w) = length (wx w)) by (apply (i1_w _ _ I1 _ _ Ek); auto).
+  pose proof (Q_complete _ _ _ IO Ek Hact Hlen) as Q0.
+  set (m1 := m_complete (mgr s) (wx w)) in *. set (st1 := store s ++ combine (wx w) (wy w)) in *.
+  destruct (if ldc then do_load st1 (loaded s) else (st1, loaded s)) as [st2 ld2] eqn:Eld.
+  assert (Q1 : Q (fun j => j <> k) (ws s) m1 st2 ld2 (handed s)).
+  { destruct ldc; inversion Eld; subst; auto. apply Q_load; auto. }
+  clear Q0.
+  destruct (launched s <? maxpts cfg).
+  - destruct (if rule20 m1 then do_refresh true m1 st2 ld2 c1 else Some (m1, st2, ld2)) as [[[m2 st3] ld3]|] eqn:Er; try discriminate.
+    assert (Q2 : Q (fun j => j <> k) (ws s) m2 st3 ld3 (handed s)).
+    { destruct (rule20 m1); [eapply Q_refresh; eauto | inversion Er; subst; auto]. }
+    destruct (m_next (bsz cfg) m2 (remaining cfg (launched s))) as [x1 m3] eqn:En1.
+    destruct (Q_next _ _ _ _ _ _ _ _ _ _ Q2 En1) as (Q3 & Hnd1 & Hin1 & Hdis1).
+    destruct x1 as [|p1 x1].
+    + rewrite app_nil_r in Q3.
+      destruct (do_refresh true m3 st3 ld3 c2) as [[[m4 st4] ld4]|] eqn:Er2; try discriminate.
+      pose proof (Q_refresh _ _ _ _ _ _ _ _ _ _ Er2 Q3) as Q4.
+      destruct (m_next (bsz cfg) m4 (remaining cfg (launched s))) as [x2 m5] eqn:En2.
+      destruct (Q_next _ _ _ _ _ _ _ _ _ _ Q4 En2) as (Q5 & Hnd2 & Hin2 & Hdis2).
+      destruct x2 as [|p2 x2]; intros H; inversion H; subst; clear H.
+      * rewrite app_nil_r in Q5. apply InvO_assemble; auto; cbn; discriminate.
+      * apply InvO_assemble; auto; cbn; intros _; (split; [auto|]); (split; [auto|]);
+          intros j wj Hne Hj Haj p Hp; eapply Hdis2; eauto.
+    + intros H; inversion H; subst; clear H.
+      apply InvO_assemble; auto; cbn; intros _; (split; [auto|]); (split; [auto|]);
+        intros j wj Hne Hj Haj p Hp; eapply Hdis1; eauto.
+  - intros H; inversion H; subst; clear H. apply InvO_assemble; auto; cbn; discriminate.
+Qed.
+
+Lemma InvO_map s : InvO s ->
+  forall c la mp cl, InvO (mkS (map wake (ws s)) c (mgr s) la (store s) (loaded s) mp (handed s) cl).
+Proof.
+  intros [[Q1 Q2 Q3 Q4] Hnd Ha2] c la mp cl.
+  assert (Hw : forall j wj, nth_error (map wake (ws s)) j = Some wj ->
+                            exists w, nth_error (ws s) j = Some w /\ wactive wj = wactive w /\ wx wj = wx w).
+  { intros j wj Hj. rewrite nth_error_map in Hj. destruct (nth_error (ws s) j) as [w|]; try discriminate.
+    cbn in Hj. inversion Hj; subst. exists w. unfold wake. destruct (wpc w); auto. }
+  constructor; cbn.
+  - constructor; auto. intros j wj _ Hj Ha p Hp. destruct (Hw _ _ Hj) as (w & Ew & Ea & Ex).
+    rewrite Ea in Ha. rewrite Ex in Hp. eapply Q4; eauto.
+  - intros id wj Hj Ha. destruct (Hw _ _ Hj) as (w & Ew & Ea & Ex). rewrite Ea in Ha. rewrite Ex. eapply Hnd; eauto.
+  - intros i j wi wj Hij Hi Hj Hai Haj p Hp.
+    destruct (Hw _ _ Hi) as (w1 & E1 & Ea1 & Ex1). destruct (Hw _ _ Hj) as (w2 & E2 & Ea2 & Ex2).
+    rewrite Ea1 in Hai. rewrite Ea2 in Haj. rewrite Ex1 in Hp. rewrite Ex2. eapply Ha2 with (i := i) (j := j); eauto.
+Qed.
+
+Lemma InvO_step cfg s l s' : Inv1 cfg s -> InvO s -> step true cfg s l = Some s' -> InvO s'.
+Proof.
+  intros I1 IO HS. pose proof I1 as [Hl Hm Hw Hn Hr].
+  destruct l; cbn in HS.
+  - (* LStart *)
+    unfold step_start in HS. destruct (mpc s); try discriminate.
+    destruct (do_refresh _ _ _ _ _) as [[[m st] ld]|] eqn:Er; try discriminate. inv_some.
+    destruct IO as [Q0 Hnd Ha2]. constructor; cbn; auto. eapply Q_refresh; eauto.
+  - (* LInitJob *)
+    unfold step_initjob, set_w in HS. destruct (mpc s) eqn:Em; try discriminate.
+    destruct (nth_error (ws s) k) as [w|] eqn:Ek; try discriminate.
+    pose proof (nth_error_lt _ _ _ Ek) as Hk.
+    assert (Q0 : Q (fun j => j <> k) (ws s) (mgr s) (store s) (loaded s) (handed s)).
+    { apply Q_weaken with (P := fun _ => True); [auto | apply IO]. }
+    destruct (if guarded cfg then launched s <? maxpts cfg else true).
+    + destruct (m_next (bsz cfg) (mgr s) (remaining cfg (launched s))) as [x m] eqn:En.
+      destruct (Q_next _ _ _ _ _ _ _ _ _ _ Q0 En) as (Q1 & Hnd1 & Hin1 & Hdis1).
+      destruct x as [|p x]; inv_some.
+      * rewrite app_nil_r in Q1. apply InvO_assemble; auto; cbn; discriminate.
+      * apply InvO_assemble; auto; cbn; intros _; (split; [auto|]); (split; [auto|]);
+          intros j wj Hne Hj Haj q Hq; eapply Hdis1; eauto.
+    + inv_some. apply InvO_assemble; auto; cbn; discriminate.
+  - unfold step_initend, with_mpc in HS. dmatch HS. inv_some. apply InvO_main; auto.
+  - unfold step_mtest, with_mpc in HS. dmatch HS. inv_some. apply InvO_main; auto.
+  - unfold step_mlock, with_mpc in HS. dmatch HS; inv_some; apply InvO_main; auto.
+  - unfold step_mskip, with_mpc in HS. dmatch HS; inv_some; apply InvO_main; auto.
+  - eapply InvO_collect; eauto.
+  - unfold step_mcsexit, with_mpc in HS. dmatch HS; inv_some; apply InvO_main; auto.
+  - unfold step_mnotify in HS. dmatch HS; inv_some. apply InvO_map; auto.
+  - (* LMFlush *)
+    unfold step_mflush in HS. destruct (mpc s); try discriminate. cbn in HS. inv_some.
+    destruct IO as [Q0 Hnd Ha2]. constructor; cbn; auto. apply Q_load; auto.
+  - unfold step_mjoin, with_mpc in HS. dmatch HS; inv_some; apply InvO_main; auto.
+  - unfold step_wenter, with_w, set_w in HS. wunf HS w Ew Epc. inv_some. apply InvO_wframe with (w := w); auto.
+  - unfold step_wexit, set_w in HS. wunf HS w Ew Epc. dmatch HS. inv_some. apply InvO_wframe with (w := w); auto.
+  - (* LWDone *)
+    unfold step_wdone, set_w in HS. wunf HS w Ew Epc. dmatch HS. inv_some.
+    pose proof (Hw _ _ Ew) as W. pose proof (wok_started _ _ _ _ W ltac:(congruence)) as Hid.
+    destruct W as (W1 & W2 & W3 & W4 & W5 & W6 & W7). specialize (W2 Hid). rewrite Epc in W2.
+    apply InvO_wframe with (w := w); auto. unfold wactive; cbn. rewrite W2. reflexivity.
+  - unfold step_wnotify, set_w in HS. wunf HS w Ew Epc. inv_some. apply InvO_wframe with (w := w); auto.
+  - unfold step_wlock, with_w, set_w in HS. wunf HS w Ew Epc. dmatch HS. inv_some. apply InvO_wframe with (w := w); auto.
+  - unfold step_spurm, with_mpc in HS. dmatch HS; inv_some; apply InvO_main; auto.
+  - unfold step_spurw, with_w, set_w in HS. wunf HS w Ew Epc. inv_some. apply InvO_wframe with (w := w); auto.
+Qed.
+
+Lemma reach_InvO cfg L0 n0 s : reachable true cfg L0 n0 s -> InvO s.
+Proof.
+  induction 1 as [|s l s' R IH HS]; [apply init_InvO|].
+  eapply InvO_step; eauto. apply (reach_Inv12 _ _ _ _ _ R).
+Qed.
+
+(* ------------------------------------------------------------------------------------------------ *)
+(** * a worker inside the model call is left alone by every other thread *)
+
+Lemma in_model_stable hc cfg s l s' id w :
+  Inv1 cfg s -> step hc cfg s l = Some s' -> nth_error (ws s) id = Some w -> wpc w = WInModel ->
+  (exists vals, l = LWExit id vals) \/ nth_error (ws s') id = Some w.
+Proof.
+  intros I1 HS Ew Epc. pose proof I1 as [Hl Hm Hw Hn Hr].
+  pose proof (Hw _ _ Ew) as W. pose proof (wok_started _ _ _ _ W ltac:(congruence)) as Hid.
+  destruct W as (W1 & W2 & W3 & W4 & W5 & W6 & W7). specialize (W2 Hid). rewrite Epc in W2.
+  assert (Hoth : forall k wk w', nth_error (ws s) k = Some wk -> wpc wk <> WInModel -> nth_error (upd (ws s) k w') id = Some w).
+  { intros k wk w' Ek Hne. rewrite nth_error_upd_neq; auto. intros ->. rewrite Ew in Ek. inversion Ek; subst. congruence. }
+  destruct l; cbn in HS.
+  - unfold step_start in HS. dmatch HS. inv_some. auto.
+  - unfold step_initjob, set_w in HS. destruct (mpc s) eqn:Em; try discriminate.
+    destruct (nth_error (ws s) k) as [wk|] eqn:Ek; try discriminate.
+    assert (Hprist : wk = pristine). { specialize (Hw _ _ Ek). apply Hw; cbn; lia. }
+    match type of HS with (let (_, _) := ?t in _) = _ => destruct t as [x m] end.
+    right. destruct x; inv_some; cbn; eapply Hoth; eauto; subst; cbn; discriminate.
+  - unfold step_initend, with_mpc in HS. dmatch HS. inv_some. auto.
+  - unfold step_mtest, with_mpc in HS. dmatch HS. inv_some. auto.
+  - unfold step_mlock, with_mpc in HS. dmatch HS; inv_some; auto.
+  - unfold step_mskip, with_mpc in HS. dmatch HS; inv_some; auto.
+  - apply step_mcollect_spec in HS.
+    destruct HS as (k & wk & f' & x' & m' & la' & st' & ld' & h' & Em & Ek & Ef & -> & Hcase & Hst).
+    right. cbn. eapply Hoth; eauto. intros E.
+    pose proof (Hw _ _ Ek) as Wk. pose proof (wok_started _ _ _ _ Wk ltac:(congruence)) as Hk.
+    destruct Wk as (_ & Wk2 & _). specialize (Wk2 Hk). rewrite E in Wk2. congruence.
+  - unfold step_mcsexit, with_mpc in HS. dmatch HS; inv_some; auto.
+  - unfold step_mnotify in HS. dmatch HS; inv_some. right. cbn. rewrite nth_error_map, Ew. cbn. unfold wake. rewrite Epc. reflexivity.
+  - unfold step_mflush in HS. dmatch HS. cbn in HS. inv_some. auto.
+  - unfold step_mjoin, with_mpc in HS. dmatch HS; inv_some; auto.
+  - unfold step_wenter, with_w, set_w in HS. wunf HS wk Ek Epk. inv_some. right. cbn. eapply Hoth; eauto. congruence.
+  - unfold step_wexit, set_w in HS. wunf HS wk Ek Epk. dmatch HS. inv_some.
+    destruct (Nat.eq_dec id0 id) as [->|Hne]; [left; eauto|]. right. cbn. rewrite nth_error_upd_neq; auto.
+  - unfold step_wdone, set_w in HS. wunf HS wk Ek Epk. dmatch HS. inv_some. right. cbn. eapply Hoth; eauto. congruence.
+  - unfold step_wnotify, set_w in HS. wunf HS wk Ek Epk. inv_some. right. cbn. eapply Hoth; eauto. congruence.
+  - unfold step_wlock, with_w, set_w in HS. wunf HS wk Ek Epk. dmatch HS. inv_some. right. cbn. eapply Hoth; eauto. congruence.
+  - unfold step_spurm, with_mpc in HS. dmatch HS; inv_some; auto.
+  - unfold step_spurw, with_w, set_w in HS. wunf HS wk Ek Epk. inv_some. right. cbn. eapply Hoth; eauto. congruence.
+Qed.
+
+(* ------------------------------------------------------------------------------------------------ *)
+(** * the work queue of loadNeededValues *)
+
+Lemma qscan_spec fuel s ch :
+  let s' := qscan fuel s ch in
+  s <= s' /\ (forall i, s <= i -> i < s' -> nth_error ch i = Some true) /\ (nth_error ch s' <> Some true \/ s' = s + fuel).
+Proof.
+  revert s; induction fuel as [|f IH]; intros s; cbn.
+  - split; [lia|]. split; [intros; lia|]. right; lia.
+  - destruct (nth_error ch s) as [[|]|] eqn:E.
+    + destruct (IH (S s)) as (H1 & H2 & H3). split; [lia|]. split.
+      * intros i Hi Hlt. destruct (Nat.eq_dec i s) as [->|]; auto. apply H2; lia.
+      * destruct H3; auto. right. lia.
+    + split; [lia|]. split; [intros; lia|]. left. congruence.
+    + split; [lia|]. split; [intros; lia|]. left. congruence.
+Qed.
+
+Record QInv (n nt : nat) (q : qstate) : Prop := {
+  qi_len : length (checked q) = n;
+  qi_tl : length (qthreads q) = nt;
+  qi_log : forall i, In i (map snd (qlog q)) <-> nth_error (checked q) i = Some true;
+  qi_nd : NoDup (map snd (qlog q));
+  qi_thr : forall t s pc, nth_error (qthreads q) t = Some (s, pc) ->
+           (forall i, i < s -> i < n -> nth_error (checked q) i = Some true) /\ (pc = QDone -> n <= s)
+}.
+
+Lemma nth_error_repeat_false n i : nth_error (repeat false n) i <> Some true.
+Proof. intros H. apply nth_error_In, repeat_spec in H. discriminate. Qed.
+
+Lemma qinit_QInv n nt : QInv n nt (qinit n nt).
+Proof.
+  constructor; cbn; try apply repeat_length.
+  - intros i. split; [tauto|]. intros H. exfalso. eapply nth_error_repeat_false; eauto.
+  - constructor.
+  - intros t s pc H. apply nth_error_In, repeat_spec in H. inversion H; subst. split; [lia|discriminate].
+Qed.
+
+Lemma nth_error_upd_true ch j i : nth_error ch i = Some true -> nth_error (upd ch j true) i = Some true.
+Proof.
+  intros H. destruct (Nat.eq_dec j i) as [->|Hne]; [apply nth_error_upd_eq; eapply nth_error_lt; eauto|].
+  rewrite nth_error_upd_neq; auto.
+Qed.
+
+Lemma QInv_step n nt q l q' : QInv n nt q -> qstep q l = Some q' -> QInv n nt q'.
+Proof.
+  intros [Hlen Htl Hlog Hnd Hthr] HS. destruct l as [t|t]; unfold qstep in HS.
+  - destruct (nth_error (qthreads q) t) as [[s pc]|] eqn:Et; try discriminate. destruct pc; try discriminate.
+    pose proof (qscan_spec (length (checked q)) s (checked q)) as (S1 & S2 & S3). cbn in S1, S2, S3.
+    set (s' := qscan (length (checked q)) s (checked q)) in *.
+    destruct (Hthr _ _ _ Et) as [Hbelow _].
+    revert HS. destruct (Nat.ltb_spec s' (length (checked q))) as [Hlt|Hge]; intros HS; inv_some.
+    + (* checkout of s' *)
+      assert (Hnot : nth_error (checked q) s' <> Some true).
+      { destruct S3 as [?|E]; auto. lia. }
+      constructor; cbn.
+      * rewrite upd_length; auto.
+      * rewrite upd_length; auto.
+      * intros i. rewrite map_app, in_app_iff. cbn. split.
+        -- intros [H|[<-|[]]]; [apply nth_error_upd_true, Hlog; auto | apply nth_error_upd_eq; auto].
+        -- intros H. destruct (Nat.eq_dec s' i) as [->|Hne]; auto. rewrite nth_error_upd_neq in H; auto. left. apply Hlog; auto.
+      * rewrite map_app. cbn. apply NoDup_app_intro; auto; [constructor; [tauto|constructor]|].
+        intros i Hi [<-|[]]. apply Hnot, Hlog; auto.
+      * intros t0 s0 pc0 H0. destruct (nth_error_upd _ _ _ _ _ H0) as [(<- & E & _)|(Hne & H0')].
+        -- inversion E; subst. split; [|discriminate]. intros i Hi Hin. apply nth_error_upd_true.
+           destruct (Nat.lt_ge_cases i s); [apply Hbelow; auto | apply S2; auto].
+        -- destruct (Hthr _ _ _ H0') as [A B]. split; auto. intros i Hi Hin. apply nth_error_upd_true; auto.
+    + constructor; cbn; auto.
+      * rewrite upd_length; auto.
+      * intros t0 s0 pc0 H0. destruct (nth_error_upd _ _ _ _ _ H0) as [(<- & E & _)|(Hne & H0')]; [|eapply Hthr; eauto].
+        inversion E; subst. split; [|lia]. intros i Hi Hin.
+        destruct (Nat.lt_ge_cases i s); [apply Hbelow; auto | apply S2; auto].
+  - destruct (nth_error (qthreads q) t) as [[s pc]|] eqn:Et; try discriminate. destruct pc; try discriminate. inv_some.
+    constructor; cbn; auto.
+    + rewrite upd_length; auto.
+    + intros t0 s0 pc0 H0. destruct (nth_error_upd _ _ _ _ _ H0) as [(<- & E & _)|(Hne & H0')]; [|eapply Hthr; eauto].
+      inversion E; subst. destruct (Hthr _ _ _ Et) as [A _]. split; [auto|discriminate].
+Qed.
+
+Lemma reach_QInv n nt q : qreachable n nt q -> QInv n nt q.
+Proof. induction 1; [apply qinit_QInv | eapply QInv_step; eauto]. Qed.
+
+Lemma queue_all_checked n nt q : QInv n nt q -> 0 < nt -> qfinished q = true -> forall i, i < n -> In i (map snd (qlog q)).
+Proof.
+  intros [Hlen Htl Hlog Hnd Hthr] Hnt Hfin i Hi.
+  destruct (qthreads q) as [|[s pc] r] eqn:E; [cbn in Htl; lia|].
+  unfold qfinished in Hfin. rewrite ?E in Hfin. cbn in Hfin. apply andb_true_iff in Hfin. destruct Hfin as [Hpc _].
+  destruct pc; try discriminate.
+  destruct (Hthr 0 s QDone) as [A B]; [rewrite ?E; reflexivity|].
+  apply Hlog, A; auto. specialize (B eq_refl). lia.
+Qed.
+
+Lemma queue_in_range n nt q : QInv n nt q -> forall i, In i (map snd (qlog q)) -> i < n.
+Proof. intros [Hlen Htl Hlog Hnd Hthr] i Hi. apply Hlog, nth_error_lt in Hi. lia. Qed.
+
+(* ------------------------------------------------------------------------------------------------ *)
+(** * statements in the form used by Props/Properties_C18.v *)
+
+Lemma run_reachable hc cfg L0 n0 ls s s' :
+  reachable hc cfg L0 n0 s -> run hc cfg s ls = Some s' -> reachable hc cfg L0 n0 s'.
+Proof.
+  revert s; induction ls as [|l r IH]; cbn; intros s R H.
+  - inversion H; subst; auto.
+  - destruct (step hc cfg s l) as [s1|] eqn:E; try discriminate. eapply IH; [|eauto]. eapply reach_step; eauto.
+Qed.
+
+Lemma qrun_reachable n nt ls q q' : qreachable n nt q -> qrun q ls = Some q' -> qreachable n nt q'.
+Proof.
+  revert q; induction ls as [|l r IH]; cbn; intros q R H.
+  - inversion H; subst; auto.
+  - destruct (qstep q l) as [q1|] eqn:E; try discriminate. eapply IH; [|eauto]. eapply qreach_step; eauto.
+Qed.
+
+Lemma at_most_once_stmt cfg L0 n0 s :
+  reachable true cfg L0 n0 s ->
+  NoDup (handed s) /\
+  (forall p, In p (handed s) -> In p (rjobs (mgr s)) \/ In p (pts (store s)) \/ In p (pts (loaded s))) /\
+  (forall id w, nth_error (ws s) id = Some w -> wactive w = true ->
+     NoDup (wx w) /\ forall p, In p (wx w) -> In p (rjobs (mgr s)) /\ In p (handed s)) /\
+  (forall i j wi wj, i <> j -> nth_error (ws s) i = Some wi -> nth_error (ws s) j = Some wj ->
+     wactive wi = true -> wactive wj = true -> forall p, In p (wx wi) -> ~ In p (wx wj)).
+Proof.
+  intros R. destruct (reach_InvO _ _ _ _ R) as [[Q1 Q2 Q3 Q4] Hnd Ha2].
+  split; [auto|]. split; [intros p Hp; destruct (Q2 _ Hp) as [?|[?|?]]; auto|]. split; [|exact Ha2].
+  intros id w Ew Ha. split; [eapply Hnd; eauto|]. intros p Hp. eapply Q4; eauto.
+Qed.
+
+Lemma budget_guarded hc cfg L0 n0 s :
+  guarded cfg = true -> reachable hc cfg L0 n0 s -> launched s <= Nat.max (maxpts cfg) n0.
+Proof. intros Hg R. pose proof (reach_budget _ _ _ _ _ R) as H. unfold bound in H. rewrite Hg in H. lia. Qed.
+
+Lemma budget_as_coded hc cfg L0 n0 s :
+  reachable hc cfg L0 n0 s -> launched s <= Nat.max (maxpts cfg) n0 + nj cfg * bsz cfg.
+Proof.
+  intros R. pose proof (reach_budget _ _ _ _ _ R) as H. unfold bound in H.
+  pose proof (ninit_le cfg (mpc s) (i1_mpc _ _ (proj1 (reach_Inv12 _ _ _ _ _ R)))) as Hle.
+  destruct (guarded cfg); [lia|]. assert (ninit cfg (mpc s) * bsz cfg <= nj cfg * bsz cfg) by (apply Nat.mul_le_mono_r; auto). lia.
+Qed.
+
+Lemma flag_count_sync hc cfg L0 n0 s :
+  reachable hc cfg L0 n0 s ->
+  (lock_free s = true -> count_done s = count_flag_done (ws s)) /\
+  (lock_free s = false -> count_done s = 0) /\
+  (forall k id w, mpc s = MCollect k -> id < k -> nth_error (ws s) id = Some w -> wflag w <> FDone).
+Proof.
+  intros R. destruct (reach_Inv12 _ _ _ _ _ R) as [I1 I2]. repeat split.
+  - intros H. apply I2. unfold lock_free in H. unfold in_cs. destruct (mpc s); congruence.
+  - intros H. apply I2. unfold lock_free in H. unfold in_cs. destruct (mpc s); congruence.
+  - intros k id w Em Hlt Ew. apply (i1_w _ _ I1 _ _ Ew) with (k := k); auto.
+Qed.
+
+Lemma values_stmt hc cfg L0 n0 s :
+  reachable hc cfg L0 n0 s ->
+  (forall p v, In (p, v) (store s ++ loaded s) -> In (p, v) L0 \/ exists id, In (id, p, v) (calls s)) /\
+  (forall id w, nth_error (ws s) id = Some w -> wpc w = WPost \/ wflag w = FDone ->
+     length (wy w) = length (wx w) /\ forall p v, In (p, v) (combine (wx w) (wy w)) -> In (id, p, v) (calls s)).
+Proof.
+  intros R. destruct (reach_InvV _ _ _ _ _ R) as [V1 V2]. destruct (reach_Inv12 _ _ _ _ _ R) as [I1 _].
+  split; auto. intros id w Ew Hp. split; [apply (i1_w _ _ I1 _ _ Ew); auto | eapply V2; eauto].
+Qed.
+
+Lemma same_id_stmt hc cfg L0 n0 s :
+  reachable hc cfg L0 n0 s ->
+  (forall id w, nth_error (ws s) id = Some w -> wpc w = WInModel ->
+     wflag w = FComputing /\
+     forall l s', step hc cfg s l = Some s' -> (exists vals, l = LWExit id vals) \/ nth_error (ws s') id = Some w) /\
+  (forall k w, mpc s = MInit k -> nth_error (ws s) k = Some w -> wpc w = WIdle).
+Proof.
+  intros R. destruct (reach_Inv12 _ _ _ _ _ R) as [I1 _]. split.
+  - intros id w Ew Epc. split.
+    + pose proof (i1_w _ _ I1 _ _ Ew) as W. pose proof (wok_started _ _ _ _ W ltac:(congruence)) as Hid.
+      destruct W as (_ & W2 & _). specialize (W2 Hid). rewrite Epc in W2. auto.
+    + intros l s' HS. eapply in_model_stable; eauto.
+  - intros k w Em Ew. pose proof (i1_w _ _ I1 _ _ Ew) as (W1 & _). rewrite Em in W1. rewrite W1; cbn; auto.
+Qed.
+
+Lemma no_stuck_stmt hc cfg L0 n0 s :
+  reachable hc cfg L0 n0 s -> final s = true \/ exists l, spurious l = false /\ step hc cfg s l <> None.
+Proof. intros R. destruct (reach_Inv12 _ _ _ _ _ R) as [I1 I2]. apply no_stuck; auto. Qed.
+
+(* the two "no lost wake-up" facts, and: running jobs imply a computing worker or a published result *)
+Lemma no_lost_wakeup hc cfg L0 n0 s :
+  reachable hc cfg L0 n0 s ->
+  (forall id w, nth_error (ws s) id = Some w -> wpc w = WSleep -> wflag w <> FDone ->
+     (exists k, mpc s = MCollect k) \/ mpc s = MNotify) /\
+  (mpc s = MSleep -> 0 < count_done s -> exists id w, nth_error (ws s) id = Some w /\ wpc w = WNotify) /\
+  (ninit cfg (mpc s) = nj cfg -> lock_free s = true -> 0 < nrun (mgr s) ->
+     0 < count_done s \/ exists id w, nth_error (ws s) id = Some w /\ wflag w = FComputing).
+Proof.
+  intros R. destruct (reach_Inv12 _ _ _ _ _ R) as [I1 I2]. split; [|split].
+  - intros id w Ew Epc Hf. pose proof (i1_w _ _ I1 _ _ Ew) as W. pose proof (wok_started _ _ _ _ W ltac:(congruence)) as Hid.
+    destruct W as (_ & W2 & _). specialize (W2 Hid). rewrite Epc in W2. specialize (W2 Hf).
+    unfold notify_pending in W2. destruct (mpc s); try discriminate; eauto.
+  - apply I2.
+  - intros Hn Hlf Hpos. rewrite (i1_nrun _ _ I1) in Hpos. destruct (sumf_pos _ _ Hpos) as (id & w & Ew & Ha).
+    pose proof (i1_w _ _ I1 _ _ Ew) as (W1 & W2 & _).
+    unfold actx in Ha. destruct (wactive w) eqn:Eact; [|lia].
+    assert (Hid : id < ninit cfg (mpc s)).
+    { destruct (Nat.lt_ge_cases id (ninit cfg (mpc s))); auto. rewrite (W1 H) in Ha. cbn in Ha. lia. }
+    specialize (W2 Hid). unfold wactive in Eact. destruct (wflag w) eqn:Ef; try discriminate.
+    + left. assert (Hd : wdone w = true).
+      { unfold wdone. rewrite Ef. destruct (wpc w); auto. congruence. }
+      assert (Hcs : in_cs (mpc s) = false) by (unfold lock_free in Hlf; unfold in_cs; destruct (mpc s); congruence).
+      rewrite (i2_out _ I2 Hcs), count_flag_done_sumf.
+      pose proof (sumf_ge (fun w => if wdone w then 1 else 0) _ _ _ Ew) as Hge. cbn in Hge. rewrite Hd in Hge. lia.
+    + right. eauto.
+Qed.
+
+Lemma shutdown_all hc cfg L0 n0 s :
+  reachable hc cfg L0 n0 s ->
+  (mpc s = MFlush \/ mpc s = MJoin \/ mpc s = MExit -> forall id w, nth_error (ws s) id = Some w -> wflag w = FShutdown) /\
+  (mpc s = MExit -> forall id w, nth_error (ws s) id = Some w -> wpc w = WIdle \/ wpc w = WFinished).
+Proof.
+  intros R. destruct (reach_Inv12 _ _ _ _ _ R) as [I1 _]. split.
+  - intros Hm id w Ew. apply (i1_w _ _ I1 _ _ Ew). destruct Hm as [-> | [-> | ->]]; reflexivity.
+  - intros Hm id w Ew. pose proof (i1_w _ _ I1 _ _ Ew) as (_ & _ & _ & W4 & _). specialize (W4 Hm).
+    unfold wstopped in W4. destruct (wpc w); auto; discriminate.
+Qed.
+
+Lemma queue_stmt n nt q :
+  qreachable n nt q ->
+  NoDup (map snd (qlog q)) /\ (forall i, In i (map snd (qlog q)) -> i < n) /\
+  (0 < nt -> qfinished q = true -> forall i, i < n -> In i (map snd (qlog q))).
+Proof.
+  intros R. pose proof (reach_QInv _ _ _ R) as I. split; [apply I|]. split.
+  - eapply queue_in_range; eauto.
+  - intros Hnt Hfin. eapply queue_all_checked; eauto.
+Qed.
+
+(* ------------------------------------------------------------------------------------------------ *)
+(** * witnesses: H-CAND is necessary; the unguarded launch loop exceeds the budget *)
+
+(* 1 worker, budget 5; after point 1 is loaded the candidate oracle returns it again (violating H-CAND) *)
+Definition cfg1 : config := mkCfg 1 1 5 true.
+Definition trace_twice : list label :=
+  [LStart [1]; LInitJob; LInitEnd; LWEnter 0; LWExit 0 [10]; LWDone 0; LMTest; LMLock; LMCollect true [1] []].
+Lemma needs_hcand_witness :
+  exists cfg L0 n0 s, reachable false cfg L0 n0 s /\ handed s = [1; 1].
+Proof.
+  exists cfg1, [], 0.
+  destruct (run false cfg1 (init cfg1 [] 0) trace_twice) as [s|] eqn:E; [|vm_compute in E; discriminate].
+  exists s. split; [eapply run_reachable; [apply reach_init | exact E]|].
+  vm_compute in E. inversion E. reflexivity.
+Qed.
+
+
+(* 3 workers, budget 1, no test in the launch loop *)
+Definition cfg_unguarded : config := mkCfg 3 1 1 false.
+Lemma budget_refuted_witness :
+  exists cfg L0 n0 s, guarded cfg = false /\ reachable true cfg L0 n0 s /\ Nat.max (maxpts cfg) n0 < launched s.
+Proof.
+  exists cfg_unguarded, [], 0.
+  destruct (run true cfg_unguarded (init cfg_unguarded [] 0) [LStart [1; 2; 3]; LInitJob; LInitJob; LInitJob]) as [s|] eqn:E;
+    [|vm_compute in E; discriminate].
+  exists s. split; [reflexivity|]. split; [eapply run_reachable; [apply reach_init | exact E]|].
+  vm_compute in E. inversion E. cbn. lia.
+Qed.
+
